@@ -433,11 +433,18 @@ def run_check(check_id, tier, seed):
         # shard-level re-execution of a history-dependent violation is exact
         with ctx.Pool(nproc, maxtasksperchild=getattr(mod, "MAXTASKS", 1)) as pool:
             it = pool.imap_unordered(_work, work, chunksize=1)
+            # VERIF_STOP_EARLY=1 (used only when evaluating property-breaking changes, never by the MANIFEST commands):
+            # stop scheduling shards once a shard has reported a violation that is not a listed known finding
+            stop_early = os.environ.get("VERIF_STOP_EARLY") == "1"
+            listed = {e["signature"] for e in load_known().get("open", []) if e.get("property") == check_id}
             for r in it:
                 if "error" in r:
                     errors.append(r)
                 else:
                     results[r["index"]] = r
+                    if stop_early and any(s not in listed or s.endswith("|unclassified") for s in r.get("vcount", {})):
+                        pool.terminate()
+                        break
                 if cap and time.time() - t0 > cap:
                     pool.terminate()
                     break
